@@ -35,6 +35,15 @@ every parked thread is unwound with ``SchedulerExit`` (a ``SystemExit``), so no
 thread outlives its execution.  ``close()`` removes the instrumentation, frees the
 monitoring tool id and restores every patched name.
 
+Hooks (plain attributes, set by the harness): ``on_step(tid, label)`` runs in the controlled
+thread when its step is granted (just before the parked instruction executes); ``on_spawn(thread)``
+runs in the parent just before an adopted thread is started; ``on_decision()`` runs in the
+scheduler thread before every choice, while every controlled thread is parked (a consistent
+snapshot of the shared state can be taken there).  ``emit(*event)`` appends to the journal of the
+execution, ``now()`` is the logical clock, ``step_index()`` the number of steps granted so far.
+``sleep_budget=n`` (argument of execute/explore) suspends a thread for good at its (n+1)-th sleep
+so that endless workers give finite executions (status ``horizon``).
+
 Typical use::
 
     with Scheduler() as S:
@@ -158,9 +167,15 @@ class Scheduler:
     def __exit__(self, *a):
         self.close()
 
-    def instrument(self, code, labeler=None, every=False):
-        """make instructions of ``code`` park points.  labeler(ins) -> label or None."""
+    def instrument(self, code, labeler=None, every=False, replace=False):
+        """make instructions of ``code`` park points.  labeler(ins) -> label or None; every=True: the
+        instructions the labeler does not name are park points too (generic label); replace=True
+        forgets the park points registered for ``code`` before."""
         n = 0
+        if replace:
+            for k in [k for k in self._labels if k[0] is code]:
+                del self._labels[k]
+            self._every.discard(code)
         for ins in dis.get_instructions(code):
             lab = labeler(ins) if labeler is not None else None
             if lab is None and every:
